@@ -46,6 +46,9 @@ func init() {
 		"(reflect.Value).IsValid":         ext۰reflect۰Value۰IsValid,
 		"(reflect.Value).IsZero":          ext۰reflect۰Value۰IsZero,
 		"(reflect.Value).Kind":            ext۰reflect۰Value۰Kind,
+		"(reflect.Value).CanInt":          ext۰reflect۰Value۰CanInt,
+		"(reflect.Value).CanUint":         ext۰reflect۰Value۰CanUint,
+		"(reflect.Value).CanFloat":        ext۰reflect۰Value۰CanFloat,
 		"(reflect.Value).Len":             ext۰reflect۰Value۰Len,
 		"(reflect.Value).MapIndex":        ext۰reflect۰Value۰MapIndex,
 		"(reflect.Value).MapKeys":         ext۰reflect۰Value۰MapKeys,
